@@ -49,6 +49,7 @@ type Result struct {
 	HasPanic bool
 	Panic    string
 	Budget   bool // unwound because the step budget was exceeded
+	Deadlock bool // unwound because no simulated caller could make progress
 	D        []D
 	S        []string
 	I        []int64
